@@ -107,9 +107,11 @@ func genGuards() {
 
 	tlv := []guardSite{
 		{Name: "tlv_unpackSubfieldsByTag", Sig: []string{"f", "data"}, File: "field/composite.go", Recv: "Composite", Func: "unpackSubfieldsByTag",
-			Params: []string{"offset", "dlen", "fieldLength", "read", "start", "known:Bool", "skip:Bool"},
+			Params:   []string{"offset", "dlen", "fieldLength", "read", "start", "known:Bool", "skip:Bool"},
+			FirstInt: "offset", DefBySel: map[string]string{"Unpack": "read"},
+			DefAll: map[string][]string{"pref.DecodeLength": {"fieldLength", "read"}, "f.spec.Tag.Enc.Decode": {"", "read"}},
 			Map: ids(map[string]string{"len(data)": "dlen", "ok": "known", "f.skipUnknownTLVTags()": "skip"},
-				"offset", "fieldLength", "read", "start")},
+				"offset", "start")},
 		{Name: "bitmapped_unpackSubfieldsByBitmap", Sig: []string{"f", "data"}, File: "field/composite.go", Recv: "Composite", Func: "unpackSubfieldsByBitmap",
 			Params: []string{"i", "bitmapLen", "isSet:Bool", "found:Bool"},
 			Map:    ids(map[string]string{"f.bitmap().Len()": "bitmapLen", "f.bitmap().IsSet(i)": "isSet", "ok": "found"}, "i")},
@@ -203,18 +205,35 @@ func genGuards() {
 			Map:    map[string]string{"len(data)": "dlen"}},
 		unp("default", "defaultUnpacker"),
 		unp("track2", "Track2Unpacker"),
+		// the packing side: which length is announced, which length the padder is asked for
+		guardSite{Name: "default_Pack", OnlyRets: true, Args: map[string][]int{"spec.Pref.EncodeLength": {0, 1}, "spec.Pad.Pad": {1}},
+			Sig: []string{"", "value", "spec"}, File: "field/packer_unpacker.go", Recv: "defaultPacker", Func: "Pack",
+			LenVers: map[string]string{"value": "vlen"},
+			Params:  []string{"slen", "vlen0", "vlen1", "hasPad:Bool"},
+			Map:     map[string]string{"spec.Pad!=nil": "hasPad", "spec.Length": "slen"}},
+		guardSite{Name: "track2_Pack", OnlyRets: true, Args: map[string][]int{"spec.Pref.EncodeLength": {0, 1}, "spec.Pad.Pad": {1}},
+			Sig: []string{"", "value", "spec"}, File: "field/packer_unpacker.go", Recv: "Track2Packer", Func: "Pack",
+			LenVers: map[string]string{"value": "vlen"},
+			Params:  []string{"slen", "vlen0", "vlen1", "hasPad:Bool"},
+			Map:     map[string]string{"spec.Pad!=nil": "hasPad", "spec.Length": "slen"}},
 		// the running offsets of the element loops: every assignment, and every place the input is cut
-		guardSite{Name: "message_unpack", OnlyRets: true, Slices: true, Updates: []string{"off"}, Sig: []string{"m", "src"}, File: "message.go", Recv: "Message", Func: "unpack",
-			Params: []string{"off", "read"}, Map: ids(nil, "off", "read")},
-		guardSite{Name: "tlv_unpackSubfieldsByTag", OnlyRets: true, Slices: true, Updates: []string{"offset"}, Rets: []int{0}, Sig: []string{"f", "data"}, File: "field/composite.go", Recv: "Composite", Func: "unpackSubfieldsByTag",
-			Params: []string{"offset", "dlen", "fieldLength", "read", "readFieldLength", "start"},
-			Map:    ids(map[string]string{"len(data)": "dlen"}, "offset", "fieldLength", "read", "readFieldLength", "start")},
-		guardSite{Name: "bitmapped_unpackSubfieldsByBitmap", OnlyRets: true, Slices: true, Updates: []string{"off"}, Rets: []int{0}, Sig: []string{"f", "data"}, File: "field/composite.go", Recv: "Composite", Func: "unpackSubfieldsByBitmap",
-			Params: []string{"off", "read"}, Map: ids(nil, "off", "read")},
-		guardSite{Name: "positional_unpackSubfields", Slices: true, Updates: []string{"offset"}, Rets: []int{0}, Sig: []string{"f", "data", "isVariableLength"}, File: "field/composite.go", Recv: "Composite", Func: "unpackSubfields",
-			Params: []string{"offset", "read", "dlen", "isVar:Bool", "found:Bool"}, Map: ids(map[string]string{"len(data)": "dlen", "isVariableLength": "isVar", "ok": "found"}, "offset", "read")},
-		guardSite{Name: "bitmap_Unpack", OnlyRets: true, Slices: true, Updates: []string{"read"}, Rets: []int{0}, Sig: []string{"f", "data"}, File: "field/bitmap.go", Recv: "Bitmap", Func: "Unpack",
-			Params: []string{"read", "readDecoded", "minLen"}, Map: ids(map[string]string{"f.bitmapLength": "minLen"}, "read", "readDecoded")},
+		guardSite{Name: "message_unpack", OnlyRets: true, Slices: true, Updates: []string{"off"}, FirstInt: "off", Sig: []string{"m", "src"}, File: "message.go", Recv: "Message", Func: "unpack",
+			DefBySel: map[string]string{"Unpack": "read"},
+			Params:   []string{"off", "read"}, Map: ids(nil, "off")},
+		guardSite{Name: "tlv_unpackSubfieldsByTag", OnlyRets: true, Slices: true, Updates: []string{"offset"}, FirstInt: "offset", Rets: []int{0}, Sig: []string{"f", "data"}, File: "field/composite.go", Recv: "Composite", Func: "unpackSubfieldsByTag",
+			DefBySel: map[string]string{"Unpack": "read"},
+			DefAll:   map[string][]string{"pref.DecodeLength": {"fieldLength", "read"}, "f.spec.Tag.Enc.Decode": {"", "read"}},
+			Params:   []string{"offset", "dlen", "fieldLength", "read", "readFieldLength", "start"},
+			Map:      ids(map[string]string{"len(data)": "dlen"}, "offset", "start")},
+		guardSite{Name: "bitmapped_unpackSubfieldsByBitmap", OnlyRets: true, Slices: true, Updates: []string{"off"}, FirstInt: "off", Rets: []int{0}, Sig: []string{"f", "data"}, File: "field/composite.go", Recv: "Composite", Func: "unpackSubfieldsByBitmap",
+			DefBySel: map[string]string{"Unpack": "read"},
+			Params:   []string{"off", "read"}, Map: ids(nil, "off")},
+		guardSite{Name: "positional_unpackSubfields", Slices: true, Updates: []string{"offset"}, FirstInt: "offset", Rets: []int{0}, Sig: []string{"f", "data", "isVariableLength"}, File: "field/composite.go", Recv: "Composite", Func: "unpackSubfields",
+			DefBySel: map[string]string{"Unpack": "read"},
+			Params:   []string{"offset", "read", "dlen", "isVar:Bool", "found:Bool"}, Map: ids(map[string]string{"len(data)": "dlen", "isVariableLength": "isVar", "ok": "found"}, "offset")},
+		guardSite{Name: "bitmap_Unpack", OnlyRets: true, Slices: true, Updates: []string{"read"}, FirstInt: "read", Rets: []int{0}, Sig: []string{"f", "data"}, File: "field/bitmap.go", Recv: "Bitmap", Func: "Unpack",
+			DefAll: map[string][]string{"f.spec.Enc.Decode": {"", "readDecoded"}},
+			Params: []string{"read", "readDecoded", "minLen"}, Map: ids(map[string]string{"f.bitmapLength": "minLen"}, "read")},
 	)
 	genGuardFile("GuardsReturns.lean", rets)
 }
